@@ -43,7 +43,7 @@ NoFz == [j |-> 0]
 VerdictOf ==
   [ C04 |-> {"replay_differs", "pruned_replay_differs", "prune_not_meaning", "mask_mismatch", "word_mismatch"},
     C13 |-> {"decode_mismatch", "status_mismatch", "fuzz_nondeterministic", "extension_changes_outcome", "fuzz_not_faithful",
-             "word_mismatch", "mask_mismatch", "fuzz_crashed", "overrun_not_at_end", "hangs"} ]
+             "word_mismatch", "mask_mismatch", "fuzz_crashed", "overrun_not_at_end", "hangs", "rejection_invalidates"} ]
 Verdicts == IF Property = "ALL" THEN UNION { VerdictOf[p] : p \in DOMAIN VerdictOf } ELSE VerdictOf[Property]
 
 Init == /\ l = 1 /\ scen = [id |-> ""] /\ viol = {} /\ words = <<>> /\ wpos = 0 /\ fz = NoFz /\ obs = NoObs
@@ -95,7 +95,8 @@ Bits ==
 Overrun ==
   /\ Is("h.overrun") /\ Adv
   /\ viol' = viol \cup If(words # <<>> /\ wpos < Len(words), "overrun_not_at_end")
-  /\ obs' = [obs EXCEPT !.overrun = TRUE]
+  \* (running out of data in a cleanup function, after the property function has returned, still makes the test case invalid)
+  /\ obs' = [obs EXCEPT !.overrun = TRUE, !.ended = IF @ = "ret" THEN "skip" ELSE @]
   /\ UNCHANGED <<scen, words, wpos, fz, res, pr, kind, runno, iter>>
 
 \* ---- prune -----------------------------------------------------------------
@@ -117,7 +118,8 @@ PruneEnd ==
 Draw == /\ Is("draw") /\ Adv /\ obs' = [obs EXCEPT !.draws = Append(@, <<Ev.label, Ev.dval>>)]
         /\ UNCHANGED <<scen, viol, words, wpos, fz, res, pr, kind, runno, iter>>
 Call == /\ Is("call") /\ Adv
-        /\ obs' = IF Ev.m = "skip" THEN obs ELSE [obs EXCEPT !.sig = "fail"]
+        /\ obs' = IF Ev.m = "skip" THEN (IF obs.ended = "ret" THEN [obs EXCEPT !.ended = "skip"] ELSE obs)   \* a skip raised from a cleanup function
+                  ELSE [obs EXCEPT !.sig = "fail"]
         /\ UNCHANGED <<scen, viol, words, wpos, fz, res, pr, kind, runno, iter>>
 \* Draws made inside an attempt that is rejected afterwards (a Repeat action that skips after drawing, a Custom
 \* function attempt that skips) belong to bits that pruning removes: they are not part of the test case's values.
@@ -140,9 +142,14 @@ AttemptEnd ==
   /\ UNCHANGED <<scen, viol, words, wpos, fz, res, pr, kind, runno, iter>>
 
 InvBegin == /\ Is("inv.begin") /\ Adv /\ obs' = NoObs /\ UNCHANGED <<scen, viol, words, wpos, fz, res, pr, kind, runno, iter>>
+\* A rejection (duplicate element, skipped Repeat action) after which the repeat has enough rejections and its minimum count is reached makes it
+\* STOP (utils.go: reject sets forceStop; RepeatSM!Reject); the test case stays valid.  The harness reports whether such a rejection was the
+\* last thing the repeat did before the invocation unwound (fewer than forceStopTries = 1000 coins later: the forced stop itself may give up).
 InvEnd == /\ Is("inv.end") /\ Adv
           /\ obs' = [obs EXCEPT !.ended = IF Ev.how = "ret" THEN "ret" ELSE IF Ev.last = "skip" THEN "skip" ELSE "unwind"]
-          /\ UNCHANGED <<scen, viol, words, wpos, fz, res, pr, kind, runno, iter>>
+          /\ viol' = viol \cup If("rejpend" \in DOMAIN Ev /\ Ev.rejpend /\ Ev.rejcoins < 1000 /\ Ev.how # "ret" /\ ~obs.overrun /\ obs.sig = "none",
+                                  "rejection_invalidates")
+          /\ UNCHANGED <<scen, words, wpos, fz, res, pr, kind, runno, iter>>
 
 Verdict(o) == IF o.sig = "fail" THEN "failed" ELSE IF o.ended = "ret" THEN "passed" ELSE "skipped"
 Summary == [draws |-> obs.draws, verdict |-> Verdict(obs), consumed |-> wpos, nwords |-> Len(words), overrun |-> obs.overrun,
